@@ -17,7 +17,8 @@ Open Scope Z_scope.
 
 Inductive jv :=
 | JNull | JBool (b : bool)
-| JNum (bits : N)                 (* a number; the bits of the float64 its text denotes *)
+| JNum (bits : N) (int : option Z) (* a number: the bits of the float64 its text denotes; its value when the text is an
+                                     integer literal within int64 (what jx Int64 accepts), None otherwise *)
 | JStr (s : string)               (* the decoded string *)
 | JArr (l : list jv)
 | JObj (l : list (string * jv)).
@@ -44,7 +45,7 @@ Section WALK.
                | _ => None
                end
       | S (S O) => match v with
-                   | JNum b => value_positions 3 r (LE (le_ts e) (le_line e) (Some b))
+                   | JNum b _ => value_positions 3 r (LE (le_ts e) (le_line e) (Some b))
                    | _ => value_positions 3 r e                    (* structured metadata etc.: d.Skip() *)
                    end
       | _ => value_positions j r e
@@ -66,7 +67,7 @@ Section WALK.
       else if String.eqb k "line" then
         match v with JStr s => entry_members r (LE (le_ts e) (Some s) (le_val e)) | _ => None end
       else if String.eqb k "value" then
-        match v with JNum b => entry_members r (LE (le_ts e) (le_line e) (Some b)) | _ => None end
+        match v with JNum b _ => entry_members r (LE (le_ts e) (le_line e) (Some b)) | _ => None end
       else entry_members r e
     end.
   Definition entry_entry (v : jv) : option lentry :=
@@ -138,7 +139,7 @@ End WALK.
 (* a values element: [ts as decimal text, line, optional number] ; an entries element: ts / line / value members *)
 Definition dec_text (z : Z) : string := dec_Z z.
 Definition jvalue_of (e : lentry) : jv :=
-  JArr ([JStr (dec_text (le_ts e)); JStr (opt_str (le_line e))] ++ match le_val e with Some b => [JNum b] | None => [] end).
+  JArr ([JStr (dec_text (le_ts e)); JStr (opt_str (le_line e))] ++ match le_val e with Some b => [JNum b None] | None => [] end).
 
 (* ---------------------------------------------------------------- generated case files *)
 Definition tab_lookup (tab : list (string * option Z)) (s : string) : option Z :=
